@@ -1,17 +1,20 @@
 import MJ.Proofs.MetaWalk
-/-! Two runs of the analysis over the same code — one from a fresh tracker
-(`find_macro_closure`), one inside the enclosing template (`find_undeclared`) — stay related:
-whatever the fresh run reports is reported by the run in context as well, unless the context
-had the name assigned when the macro was entered (C18, macros). -/
+/-! Two runs of the analysis over the same code — one from a fresh tracker without nested
+tracking (`find_macro_closure`, the free names of a block body), one inside the enclosing
+template (`find_undeclared`, either mode) — stay related: whatever the fresh run reports is
+reported by the run in context as well, unless the context had the name assigned when the
+code was entered (C18, macros and blocks). -/
 namespace MJ.Meta
 
-/-- `s0`: fresh run, `s1`: run in context, `A`: names assigned in `s1` at the start -/
+/-- `s0`: fresh run (never nested), `s1`: run in context, `A`: names assigned in `s1` at the
+start -/
 structure Rel (A : String → Prop) (s0 s1 : St) : Prop where
+  flat : s0.nested = none
   ne0 : s0.assigned ≠ []
   ne1 : s1.assigned ≠ []
-  r1 : ∀ x, s0.isAssigned x = true → s1.isAssigned x = true
-  r3 : ∀ x, s1.isAssigned x = true → s0.isAssigned x = true ∨ x ∈ s1.out ∨ A x
-  r2 : ∀ x ∈ s0.out, x ∈ s1.out ∨ A x
+  r1 : ∀ x, s0.isAssigned x = true → s1.isAssigned x = true ∨ x ∈ s0.out
+  r3 : ∀ x, s1.isAssigned x = true → s0.isAssigned x = true ∨ s1.reported x ∨ A x
+  r2 : ∀ x ∈ s0.out, s1.reported x ∨ A x
 
 /-- `f` is a piece of the walk: scope-local and relation preserving -/
 structure Pres (A : String → Prop) (f : St → St) : Prop where
@@ -27,27 +30,23 @@ theorem Pres.comp {A : String → Prop} {f g : St → St} (hf : Pres A f) (hg : 
 
 theorem isAssigned_assign (st : St) (hne : st.assigned ≠ []) (x y : String) :
     (st.assign x).isAssigned y = true ↔ y = x ∨ st.isAssigned y = true := by
-  rw [isAssigned_iff, isAssigned_iff]
-  unfold St.assign
-  split
-  · rename_i f fs hf
-    simp only [List.mem_cons, hf]
-    constructor
-    · rintro ⟨g, hg | hg, hy⟩
-      · subst hg
-        simp only [List.mem_cons] at hy
-        rcases hy with hy | hy
-        · exact Or.inl hy
-        · exact Or.inr ⟨f, Or.inl rfl, hy⟩
-      · exact Or.inr ⟨g, Or.inr hg, hy⟩
-    · rintro (hyx | ⟨g, hg | hg, hy⟩)
-      · exact ⟨x :: f, Or.inl rfl, by simp [hyx]⟩
-      · subst hg; exact ⟨x :: g, Or.inl rfl, by simp [hy]⟩
-      · exact ⟨g, Or.inr hg, hy⟩
-  · rename_i hf; exact absurd hf hne
-
-theorem assign_out (st : St) (x : String) : (st.assign x).out = st.out := by
-  unfold St.assign; split <;> rfl
+  constructor
+  · exact isAssigned_assign_imp st x y
+  · intro h
+    rw [isAssigned_iff]
+    unfold St.assign
+    split
+    · rename_i f fs hf
+      rcases h with h | h
+      · exact ⟨x :: f, by simp, by simp [h]⟩
+      · rw [isAssigned_iff] at h
+        obtain ⟨g, hg, hy⟩ := h
+        rw [hf] at hg
+        simp only [List.mem_cons] at hg
+        rcases hg with rfl | hg
+        · exact ⟨x :: g, by simp, by simp [hy]⟩
+        · exact ⟨g, by simp [hg], hy⟩
+    · rename_i hf; exact absurd hf hne
 
 theorem assign_ne (st : St) (hne : st.assigned ≠ []) (x : String) : (st.assign x).assigned ≠ [] := by
   unfold St.assign
@@ -57,16 +56,16 @@ theorem assign_ne (st : St) (hne : st.assigned ≠ []) (x : String) : (st.assign
 
 theorem pres_assign (A : String → Prop) (x : String) : Pres A (fun st => st.assign x) := by
   refine ⟨fun st => step_assign st x, fun s0 s1 h => ?_⟩
-  refine ⟨assign_ne _ h.ne0 x, assign_ne _ h.ne1 x, ?_, ?_, ?_⟩
+  refine ⟨by rw [assign_nested]; exact h.flat, assign_ne _ h.ne0 x, assign_ne _ h.ne1 x, ?_, ?_, ?_⟩
   · intro y hy
     rw [isAssigned_assign _ h.ne0] at hy
-    rw [isAssigned_assign _ h.ne1]
+    rw [isAssigned_assign _ h.ne1, assign_out]
     rcases hy with hy | hy
-    · exact Or.inl hy
-    · exact Or.inr (h.r1 y hy)
+    · exact Or.inl (Or.inl hy)
+    · exact (h.r1 y hy).imp Or.inr id
   · intro y hy
     rw [isAssigned_assign _ h.ne1] at hy
-    rw [isAssigned_assign _ h.ne0, assign_out]
+    rw [isAssigned_assign _ h.ne0, assign_reported]
     rcases hy with hy | hy
     · exact Or.inl (Or.inl hy)
     · rcases h.r3 y hy with h3 | h3 | h3
@@ -74,90 +73,143 @@ theorem pres_assign (A : String → Prop) (x : String) : Pres A (fun st => st.as
       · exact Or.inr (Or.inl h3)
       · exact Or.inr (Or.inr h3)
   · intro y hy
-    rw [assign_out] at hy ⊢
+    rw [assign_out] at hy
+    rw [assign_reported]
     exact h.r2 y hy
 
-theorem isAssigned_out_irrel (st : St) (o : List String) (y : String) :
-    ({ st with out := o } : St).isAssigned y = st.isAssigned y := rfl
-
-theorem visitVar_pos {st : St} {x : String} (h : st.isAssigned x = true) : visitVar st x = st := by
-  simp [visitVar, h]
-
-theorem visitVar_neg {st : St} {x : String} (h : ¬ st.isAssigned x = true) :
-    visitVar st x = ({ st with out := x :: st.out } : St).assign x := by
-  simp [visitVar, h]
-
-theorem pres_visitVar (A : String → Prop) (x : String) : Pres A (fun st => visitVar st x) := by
-  refine ⟨fun st => step_visitVar st x, fun s0 s1 h => ?_⟩
-  by_cases h0 : s0.isAssigned x = true
-  · have h1 := h.r1 x h0
-    rw [visitVar_pos h0, visitVar_pos h1]
-    exact h
-  · by_cases h1 : s1.isAssigned x = true
-    · rw [visitVar_neg h0, visitVar_pos h1]
-      have hne0 : ({ s0 with out := x :: s0.out } : St).assigned ≠ [] := h.ne0
-      refine ⟨assign_ne _ hne0 x, h.ne1, ?_, ?_, ?_⟩
+theorem pres_visitLeaf (A : String → Prop) (l : Leaf) : Pres A (fun st => visitLeaf st l) := by
+  refine ⟨fun st => step_visitLeaf st l, fun s0 s1 h => ?_⟩
+  have hs1 := step_visitLeaf s1 l
+  by_cases h0 : s0.isAssigned l.1 = true
+  · -- the fresh run skips the variable
+    rw [visitLeaf_pos h0]
+    by_cases h1 : s1.isAssigned l.1 = true
+    · rw [visitLeaf_pos h1]; exact h
+    · obtain ⟨g, hg⟩ : ∃ g, s1.assigned = g := ⟨_, rfl⟩
+      cases hn : s1.nested with
+      | none =>
+        have hne1 : ({ s1 with out := l.1 :: s1.out } : St).assigned ≠ [] := h.ne1
+        have heq := visitLeaf_flat h1 hn
+        refine ⟨h.flat, h.ne0, by rw [heq]; exact assign_ne _ hne1 _, ?_, ?_, ?_⟩
+        · intro y hy
+          rcases h.r1 y hy with h' | h'
+          · left; rw [heq, isAssigned_assign _ hne1]; exact Or.inr h'
+          · exact Or.inr h'
+        · intro y hy
+          rw [heq, isAssigned_assign _ hne1] at hy
+          rcases hy with rfl | hy
+          · exact Or.inl h0
+          · rcases h.r3 y hy with h3 | h3 | h3
+            · exact Or.inl h3
+            · exact Or.inr (Or.inl (hs1.rep y h3))
+            · exact Or.inr (Or.inr h3)
+        · intro y hy
+          exact (h.r2 y hy).imp (hs1.rep y) id
+      | some n =>
+        have heq := visitLeaf_nested h1 hn
+        have hia : ∀ y, (visitLeaf s1 l).isAssigned y = s1.isAssigned y := by
+          intro y; rw [heq]; rfl
+        refine ⟨h.flat, h.ne0, by rw [heq]; exact h.ne1, ?_, ?_, ?_⟩
+        · intro y hy; rw [hia]; exact h.r1 y hy
+        · intro y hy
+          rw [hia] at hy
+          rcases h.r3 y hy with h3 | h3 | h3
+          · exact Or.inl h3
+          · exact Or.inr (Or.inl (hs1.rep y h3))
+          · exact Or.inr (Or.inr h3)
+        · intro y hy
+          exact (h.r2 y hy).imp (hs1.rep y) id
+  · -- the fresh run reports the variable and considers it assigned
+    have heq0 := visitLeaf_flat h0 h.flat
+    have hne0 : ({ s0 with out := l.1 :: s0.out } : St).assigned ≠ [] := h.ne0
+    have hout0 : ∀ y, y ∈ (visitLeaf s0 l).out ↔ y = l.1 ∨ y ∈ s0.out := by
+      intro y; rw [heq0, assign_out]; simp
+    have hflat0 : (visitLeaf s0 l).nested = none := by rw [heq0, assign_nested]; exact h.flat
+    have hne0' : (visitLeaf s0 l).assigned ≠ [] := by rw [heq0]; exact assign_ne _ hne0 _
+    have hia0 : ∀ y, (visitLeaf s0 l).isAssigned y = true ↔ y = l.1 ∨ s0.isAssigned y = true := by
+      intro y; rw [heq0, isAssigned_assign _ hne0]; rfl
+    by_cases h1 : s1.isAssigned l.1 = true
+    · rw [visitLeaf_pos h1]
+      refine ⟨hflat0, hne0', h.ne1, ?_, ?_, ?_⟩
       · intro y hy
-        rw [isAssigned_assign _ hne0] at hy
+        rw [hia0] at hy
         rcases hy with rfl | hy
-        · exact h1
-        · exact h.r1 y hy
+        · exact Or.inl h1
+        · exact (h.r1 y hy).imp id (fun h' => (hout0 y).2 (Or.inr h'))
       · intro y hy
-        rw [isAssigned_assign _ hne0]
         rcases h.r3 y hy with h3 | h3 | h3
-        · exact Or.inl (Or.inr h3)
+        · exact Or.inl ((hia0 y).2 (Or.inr h3))
         · exact Or.inr (Or.inl h3)
         · exact Or.inr (Or.inr h3)
       · intro y hy
-        rw [assign_out] at hy
-        simp only [List.mem_cons] at hy
-        rcases hy with rfl | hy
-        · rcases h.r3 y h1 with h3 | h3 | h3
+        rw [hout0] at hy
+        rcases hy with hyl | hy
+        · rw [hyl]
+          rcases h.r3 l.1 h1 with h3 | h3 | h3
           · exact absurd h3 h0
           · exact Or.inl h3
           · exact Or.inr h3
         · exact h.r2 y hy
-    · rw [visitVar_neg h0, visitVar_neg h1]
-      have hne0 : ({ s0 with out := x :: s0.out } : St).assigned ≠ [] := h.ne0
-      have hne1 : ({ s1 with out := x :: s1.out } : St).assigned ≠ [] := h.ne1
-      refine ⟨assign_ne _ hne0 x, assign_ne _ hne1 x, ?_, ?_, ?_⟩
+    · have hrep1 : (visitLeaf s1 l).reported l.1 := by
+        cases hn : s1.nested with
+        | none =>
+          rw [visitLeaf_flat h1 hn, assign_reported]; simp [St.reported, hn]
+        | some n =>
+          rw [visitLeaf_nested h1 hn]; simp only [St.reported]; exact ⟨l.2, by simp⟩
+      have hne1' : (visitLeaf s1 l).assigned ≠ [] := by
+        obtain ⟨f, fs, hf⟩ := List.exists_cons_of_ne_nil h.ne1
+        obtain ⟨g, hg⟩ := hs1.tail f fs hf
+        rw [hg]; simp
+      have hia1 : ∀ y, (visitLeaf s1 l).isAssigned y = true →
+          y = l.1 ∨ s1.isAssigned y = true := by
+        intro y hy
+        cases hn : s1.nested with
+        | none =>
+          rw [visitLeaf_flat h1 hn] at hy
+          exact isAssigned_assign_imp ({ s1 with out := l.1 :: s1.out } : St) _ _ hy
+        | some n =>
+          rw [visitLeaf_nested h1 hn] at hy
+          exact Or.inr hy
+      have hia1' : ∀ y, s1.isAssigned y = true → (visitLeaf s1 l).isAssigned y = true := by
+        intro y hy
+        cases hn : s1.nested with
+        | none =>
+          have hne1 : ({ s1 with out := l.1 :: s1.out } : St).assigned ≠ [] := h.ne1
+          rw [visitLeaf_flat h1 hn, isAssigned_assign _ hne1]; exact Or.inr hy
+        | some n =>
+          rw [visitLeaf_nested h1 hn]; exact hy
+      refine ⟨hflat0, hne0', hne1', ?_, ?_, ?_⟩
       · intro y hy
-        rw [isAssigned_assign _ hne0] at hy
-        rw [isAssigned_assign _ hne1]
-        rcases hy with hy | hy
-        · exact Or.inl hy
-        · exact Or.inr (h.r1 y hy)
+        rw [hia0] at hy
+        rcases hy with hyl | hy
+        · exact Or.inr ((hout0 y).2 (Or.inl hyl))
+        · exact (h.r1 y hy).imp (hia1' y) (fun h' => (hout0 y).2 (Or.inr h'))
       · intro y hy
-        rw [isAssigned_assign _ hne1] at hy
-        rw [isAssigned_assign _ hne0, assign_out]
-        rcases hy with hy | hy
-        · exact Or.inl (Or.inl hy)
+        rcases hia1 y hy with hyl | hy
+        · exact Or.inl ((hia0 y).2 (Or.inl hyl))
         · rcases h.r3 y hy with h3 | h3 | h3
-          · exact Or.inl (Or.inr h3)
-          · exact Or.inr (Or.inl (List.mem_cons_of_mem _ h3))
+          · exact Or.inl ((hia0 y).2 (Or.inr h3))
+          · exact Or.inr (Or.inl (hs1.rep y h3))
           · exact Or.inr (Or.inr h3)
       · intro y hy
-        rw [assign_out] at hy ⊢
-        simp only [List.mem_cons] at hy ⊢
-        rcases hy with hy | hy
-        · exact Or.inl (Or.inl hy)
-        · rcases h.r2 y hy with h2 | h2
-          · exact Or.inl (Or.inr h2)
-          · exact Or.inr h2
+        rw [hout0] at hy
+        rcases hy with rfl | hy
+        · exact Or.inl hrep1
+        · exact (h.r2 y hy).imp (hs1.rep y) id
 
-theorem pres_visitVars (A : String → Prop) (xs : List String) :
-    Pres A (fun st => visitVars st xs) := by
-  induction xs with
+theorem pres_visitLeaves (A : String → Prop) (ls : List Leaf) :
+    Pres A (fun st => visitLeaves st ls) := by
+  induction ls with
   | nil => exact Pres.id A
   | cons x xs ih =>
-    have := Pres.comp (pres_visitVar A x) ih
-    simpa [visitVars] using this
+    have := Pres.comp (pres_visitLeaf A x) ih
+    simpa [visitLeaves] using this
 
 theorem pres_visitExpr (A : String → Prop) (e : Expr) : Pres A (fun st => visitExpr st e) :=
-  pres_visitVars A _
+  pres_visitLeaves A _
 
 theorem pres_visitOpt (A : String → Prop) (e : Option Expr) : Pres A (fun st => visitOpt st e) :=
-  pres_visitVars A _
+  pres_visitLeaves A _
 
 theorem pres_trackAtoms (A : String → Prop) (as : List TAtom) :
     Pres A (fun st => as.foldl trackAtom st) := by
@@ -193,27 +245,27 @@ theorem pres_withAssigns (A : String → Prop) (as : List (Expr × Expr)) :
     have := Pres.comp (Pres.comp (pres_visitExpr A e) (pres_trackAssign A t)) ih
     simpa [withAssigns] using this
 
-theorem isAssigned_push (st : St) (y : String) : st.push.isAssigned y = st.isAssigned y := by
-  simp [St.isAssigned, St.push]
-
 /-- `push; f; pop` -/
 theorem pres_scope {A : String → Prop} {f : St → St} (hf : Pres A f) :
     Pres A (fun st => (f st.push).pop) := by
   refine ⟨fun st => step_of_scope (hf.step _), fun s0 s1 h => ?_⟩
   have hp : Rel A s0.push s1.push := by
-    refine ⟨by simp [St.push], by simp [St.push], ?_, ?_, ?_⟩
+    refine ⟨h.flat, by simp [St.push], by simp [St.push], ?_, ?_, ?_⟩
     · intro y hy; rw [isAssigned_push] at *; exact h.r1 y hy
     · intro y hy; rw [isAssigned_push] at *; exact h.r3 y hy
     · exact h.r2
   have hr := hf.rel _ _ hp
-  obtain ⟨e0, _, _⟩ := step_scope (hf.step s0.push)
+  have st0 := hf.step s0.push
+  obtain ⟨e0, _, _⟩ := step_scope st0
   obtain ⟨e1, o1, _⟩ := step_scope (hf.step s1.push)
   have ia0 : ∀ y, (f s0.push).pop.isAssigned y = s0.isAssigned y := by
     intro y; simp only [St.isAssigned, e0]
   have ia1 : ∀ y, (f s1.push).pop.isAssigned y = s1.isAssigned y := by
     intro y; simp only [St.isAssigned, e1]
-  refine ⟨by rw [e0]; exact h.ne0, by rw [e1]; exact h.ne1, ?_, ?_, ?_⟩
-  · intro y hy; rw [ia0] at hy; rw [ia1]; exact h.r1 y hy
+  refine ⟨hr.flat, by rw [e0]; exact h.ne0, by rw [e1]; exact h.ne1, ?_, ?_, ?_⟩
+  · intro y hy
+    rw [ia0] at hy; rw [ia1]
+    exact (h.r1 y hy).imp id (fun h' => st0.out y h')
   · intro y hy
     rw [ia1] at hy; rw [ia0]
     rcases h.r3 y hy with h3 | h3 | h3
@@ -223,11 +275,37 @@ theorem pres_scope {A : String → Prop} {f : St → St} (hf : Pres A f) :
   · intro y hy
     exact hr.r2 y hy
 
+/-- a block body: walked with a scope stack of its own -/
+theorem pres_block {A : String → Prop} {f : St → St} (hf : Pres A f) :
+    Pres A (fun st => { f { st with assigned := [[]] } with assigned := st.assigned }) := by
+  refine ⟨fun st => step_block (hf.step _), fun s0 s1 h => ?_⟩
+  have hin : Rel A { s0 with assigned := [[]] } { s1 with assigned := [[]] } := by
+    refine ⟨h.flat, by simp, by simp, ?_, ?_, h.r2⟩
+    · intro y hy; simp [St.isAssigned] at hy
+    · intro y hy; simp [St.isAssigned] at hy
+  have hr := hf.rel _ _ hin
+  have st0 := hf.step { s0 with assigned := [[]] }
+  have st1 := hf.step { s1 with assigned := [[]] }
+  refine ⟨hr.flat, h.ne0, h.ne1, ?_, ?_, ?_⟩
+  · intro y hy
+    have hy' : s0.isAssigned y = true := hy
+    rcases h.r1 y hy' with h' | h'
+    · exact Or.inl h'
+    · exact Or.inr (st0.out y h')
+  · intro y hy
+    have hy' : s1.isAssigned y = true := hy
+    rcases h.r3 y hy' with h3 | h3 | h3
+    · exact Or.inl h3
+    · exact Or.inr (Or.inl (st1.rep y h3))
+    · exact Or.inr (Or.inr h3)
+  · intro y hy
+    exact hr.r2 y hy
+
 mutual
 theorem pres_walk (A : String → Prop) : (s : Stmt) → Pres A (fun st => walk st s)
   | .emit e => by simpa only [walk] using pres_visitExpr A e
   | .raw => by simpa only [walk] using Pres.id A
-  | .forLoop target iter filter body els => by
+  | .forLoop target iter filter _ body els => by
       have h1 := pres_scope (Pres.comp (Pres.comp (Pres.comp (Pres.comp (pres_visitExpr A iter)
         (pres_trackAssign A target)) (pres_visitOpt A filter)) (pres_assign A "loop"))
         (pres_walkList A body))
@@ -256,12 +334,16 @@ theorem pres_walk (A : String → Prop) : (s : Stmt) → Pres A (fun st => walk 
         (pres_walkList A body)))
       simpa only [walk] using this
   | .callBlock callee cargs args defaults body => by
-      have := Pres.comp (pres_visitVars A (varsCall callee cargs)) (pres_scope (Pres.comp
+      have := Pres.comp (pres_visitLeaves A (nvarsCall callee cargs)) (pres_scope (Pres.comp
         (Pres.comp (pres_assign A "caller") (pres_macroArgs A args.reverse defaults.reverse))
         (pres_walkList A body)))
       simpa only [walk] using this
   | .doStmt callee cargs => by
-      simpa only [walk] using pres_visitVars A (varsCall callee cargs)
+      simpa only [walk] using pres_visitLeaves A (nvarsCall callee cargs)
+  | .brk => by simpa only [walk] using Pres.id A
+  | .cont => by simpa only [walk] using Pres.id A
+  | .block _ body => by
+      simpa only [walk] using pres_block (pres_walkList A body)
 theorem pres_walkList (A : String → Prop) : (ss : List Stmt) → Pres A (fun st => walkList st ss)
   | [] => by simpa only [walkList] using Pres.id A
   | s :: ss => by
@@ -274,14 +356,26 @@ entered (`st1` = tracker right after `push` and `assign("caller")`). -/
 theorem closure_in_context (st1 : St) (hne : st1.assigned ≠ [])
     (args : List String) (defaults : List Expr) (body : List Stmt) :
     ∀ x ∈ findMacroClosure args defaults body,
-      x ∈ (walkList (macroArgs st1 args.reverse defaults.reverse) body).out
+      (walkList (macroArgs st1 args.reverse defaults.reverse) body).reported x
       ∨ st1.isAssigned x = true := by
   have hrel : Rel (fun x => st1.isAssigned x = true) St.init st1 := by
-    refine ⟨by simp [St.init], hne, ?_, fun x hx => Or.inr (Or.inr hx), ?_⟩
+    refine ⟨rfl, by simp [St.init], hne, ?_, fun x hx => Or.inr (Or.inr hx), ?_⟩
     · intro x hx; simp [St.init, St.isAssigned] at hx
     · intro x hx; simp [St.init] at hx
   have hp := Pres.comp (pres_macroArgs (fun x => st1.isAssigned x = true) args.reverse
     defaults.reverse) (pres_walkList _ body)
   exact (hp.rel _ _ hrel).r2
+
+/-- the free names of a block body are reported wherever the block stands -/
+theorem block_free_reported (st : St) (body : List Stmt) :
+    ∀ x ∈ (walkList St.init body).out,
+      (walkList { st with assigned := [[]] } body).reported x := by
+  have hrel : Rel (fun _ => False) St.init { st with assigned := [[]] } := by
+    refine ⟨rfl, by simp [St.init], by simp, ?_, ?_, ?_⟩
+    · intro x hx; simp [St.init, St.isAssigned] at hx
+    · intro x hx; simp [St.isAssigned] at hx
+    · intro x hx; simp [St.init] at hx
+  intro x hx
+  exact ((pres_walkList _ body).rel _ _ hrel).r2 x hx |>.resolve_right (fun h => h)
 
 end MJ.Meta
